@@ -3,6 +3,7 @@ package zygo
 import (
 	"bytes"
 	"fmt"
+	"io"
 	"os"
 	"reflect"
 	"runtime"
@@ -837,7 +838,7 @@ func PrintFunction(name string) ZlispUserFunction {
 					case *SexpTime:
 						ar[i] = x.Tm.In(NYC)
 					default:
-						ar[i] = args[i+1]
+						ar[i] = printfArg{args[i+1]}
 					}
 				}
 				if name == "printf" {
@@ -851,6 +852,22 @@ func PrintFunction(name string) ZlispUserFunction {
 
 		return SexpNull, nil
 	}
+}
+
+// printfArg is how printf and sprintf hand a list, array, hash or symbol to
+// Go's fmt: the value is shown as the script prints it (fmt would dump the Go
+// struct behind it, heap addresses included). Only the explicit %#v and %p
+// still see the Go value.
+type printfArg struct {
+	x Sexp
+}
+
+func (p printfArg) Format(f fmt.State, verb rune) {
+	if verb == 'p' || (verb == 'v' && f.Flag('#')) {
+		fmt.Fprintf(f, fmt.FormatString(f, verb), p.x)
+		return
+	}
+	io.WriteString(f, p.x.SexpString(nil))
 }
 
 func NotFunction(env *Zlisp, name string, args []Sexp) (Sexp, error) {
